@@ -12,7 +12,7 @@
 
 namespace adept {
   namespace internal {
-    Index n_storage_objects_created_;
-    Index n_storage_objects_deleted_;
+    StorageCounter n_storage_objects_created_(0);
+    StorageCounter n_storage_objects_deleted_(0);
   }
 }
